@@ -61,6 +61,8 @@ pub enum EvKind {
     GetRandom,
     /// an item handed out by FollowFileIterator / a line fed to the engine (harness level)
     Deliver,
+    /// statx / fstat on a simulated file
+    Stat,
 }
 
 #[derive(Clone, Debug)]
@@ -108,12 +110,14 @@ pub struct VFile {
 struct OpenFd {
     fd: i32,
     file: usize,
-    off: usize,
+    /// index into `World::offsets`: descriptors created by dup / fcntl(F_DUPFD) share one file offset
+    ofd: usize,
 }
 
 pub struct World {
     pub files: Vec<VFile>,
     fds: Vec<OpenFd>,
+    offsets: Vec<usize>,
     /// (file index, bytes) in landing order
     pub pending: std::collections::VecDeque<(usize, Vec<u8>)>,
     pub steps: Vec<Step>,
@@ -156,6 +160,7 @@ impl World {
         World {
             files: Vec::new(),
             fds: Vec::new(),
+            offsets: Vec::new(),
             pending: std::collections::VecDeque::new(),
             steps: Vec::new(),
             step_idx: 0,
@@ -271,7 +276,8 @@ impl World {
                 if fd < 0 {
                     return Some(-1);
                 }
-                self.fds.push(OpenFd { fd, file, off: 0 });
+                self.offsets.push(0);
+                self.fds.push(OpenFd { fd, file, ofd: self.offsets.len() - 1 });
                 let len = self.files[file].data.len();
                 self.log.push(Event { kind: EvKind::Open, file, req: 0, ret: fd as i64, off: 0, landed, len, fault: Fault::None, interrupted, text: None });
                 Some(fd)
@@ -288,7 +294,7 @@ impl World {
         }
         let interrupted = self.fire_interrupt_if(false);
         let (fault, landed) = self.take_step();
-        let off = at.unwrap_or(self.fds[slot].off);
+        let off = at.unwrap_or(self.offsets[self.fds[slot].ofd]);
         let len = self.files[file].data.len();
         let mut ev = Event { kind: EvKind::Read, file, req: count as i64, ret: 0, off, landed, len, fault: fault.clone(), interrupted, text: None };
         match fault {
@@ -345,7 +351,8 @@ impl World {
             std::ptr::copy_nonoverlapping(self.files[file].data.as_ptr().add(off), buf, n);
         }
         if at.is_none() {
-            self.fds[slot].off = off + n;
+            let ofd = self.fds[slot].ofd;
+            self.offsets[ofd] = off + n;
         }
         ev.ret = n as i64;
         self.log.push(ev);
@@ -362,7 +369,7 @@ impl World {
         let interrupted = self.fire_interrupt_if(false);
         let (_, landed) = self.take_step();
         let len = self.files[file].data.len();
-        let cur = self.fds[slot].off;
+        let cur = self.offsets[self.fds[slot].ofd];
         let base: i64 = match whence {
             libc::SEEK_SET => 0,
             libc::SEEK_CUR => cur as i64,
@@ -377,16 +384,41 @@ impl World {
             unsafe { *libc::__errno_location() = libc::EINVAL; }
             return Some(-1);
         }
-        self.fds[slot].off = new as usize;
+        let ofd = self.fds[slot].ofd;
+        self.offsets[ofd] = new as usize;
         self.log.push(Event { kind: EvKind::Seek, file, req: offset, ret: new, off: cur, landed, len, fault: Fault::None, interrupted, text: Some(vec![whence as u8]) });
         Some(new)
+    }
+
+    /// dup / fcntl(F_DUPFD*): a new descriptor for the same open file description (shared offset)
+    fn on_dup(&mut self, fd: i32, cloexec: bool) -> Option<i32> {
+        let slot = self.fd_slot(fd)?;
+        let (file, ofd) = (self.fds[slot].file, self.fds[slot].ofd);
+        let new_fd = unsafe { libc::syscall(libc::SYS_fcntl, fd, if cloexec { libc::F_DUPFD_CLOEXEC } else { libc::F_DUPFD }, 3) as i32 };
+        if new_fd >= 0 {
+            self.fds.push(OpenFd { fd: new_fd, file, ofd });
+        }
+        Some(new_fd)
+    }
+
+    /// metadata of a simulated file: a script-consuming event like open/seek/read (the writer may land an
+    /// append right before the size is sampled)
+    fn on_stat(&mut self, file: usize) {
+        if self.over_budget() {
+            return;
+        }
+        let interrupted = self.fire_interrupt_if(false);
+        let (_, landed) = self.take_step();
+        let len = self.files[file].data.len();
+        self.stat_calls += 1;
+        self.log.push(Event { kind: EvKind::Stat, file, req: 0, ret: len as i64, off: 0, landed, len, fault: Fault::None, interrupted, text: None });
     }
 
     fn on_close(&mut self, fd: i32) -> Option<()> {
         let slot = self.fd_slot(fd)?;
         let f = self.fds.remove(slot);
         let len = self.files[f.file].data.len();
-        self.log.push(Event { kind: EvKind::Close, file: f.file, req: 0, ret: 0, off: f.off, landed: 0, len, fault: Fault::None, interrupted: false, text: None });
+        self.log.push(Event { kind: EvKind::Close, file: f.file, req: 0, ret: 0, off: self.offsets[f.ofd], landed: 0, len, fault: Fault::None, interrupted: false, text: None });
         None // the placeholder descriptor still has to be closed for real
     }
 
@@ -744,16 +776,16 @@ pub unsafe extern "C" fn statx(dirfd: libc::c_int, path: *const libc::c_char, fl
                 if empty_path {
                     if let Some(slot) = w.fd_slot(dirfd) {
                         let file = w.fds[slot].file;
+                        w.on_stat(file);
                         fill_statx_file(buf, &w.files[file], 1000 + file as u64);
-                        w.stat_calls += 1;
                         handled = Some(0);
                     }
                 } else {
                     let p = std::ffi::CStr::from_ptr(path).to_string_lossy().into_owned();
                     match w.files.iter().position(|f| f.path == p) {
                         Some(file) => {
+                            w.on_stat(file);
                             fill_statx_file(buf, &w.files[file], 1000 + file as u64);
-                            w.stat_calls += 1;
                             handled = Some(0);
                         }
                         None => {
@@ -808,4 +840,38 @@ pub unsafe extern "C" fn realpath(path: *const libc::c_char, resolved: *mut libc
     }
     let func: RealpathFn = std::mem::transmute(f);
     func(path, resolved)
+}
+
+// ---------------------------------------------------------------------------------------------------
+// descriptor duplication (File::try_clone uses fcntl(F_DUPFD_CLOEXEC)): the copy must stay inside the simulation
+
+#[no_mangle]
+pub unsafe extern "C" fn fcntl(fd: libc::c_int, cmd: libc::c_int, arg: usize) -> libc::c_int {
+    if cmd == libc::F_DUPFD || cmd == libc::F_DUPFD_CLOEXEC {
+        if let Some(w) = enter() {
+            let r = w.on_dup(fd, cmd == libc::F_DUPFD_CLOEXEC);
+            exit();
+            if let Some(r) = r {
+                return r;
+            }
+        }
+    }
+    libc::syscall(libc::SYS_fcntl, fd, cmd, arg) as libc::c_int
+}
+
+#[no_mangle]
+pub unsafe extern "C" fn fcntl64(fd: libc::c_int, cmd: libc::c_int, arg: usize) -> libc::c_int {
+    fcntl(fd, cmd, arg)
+}
+
+#[no_mangle]
+pub unsafe extern "C" fn dup(fd: libc::c_int) -> libc::c_int {
+    if let Some(w) = enter() {
+        let r = w.on_dup(fd, false);
+        exit();
+        if let Some(r) = r {
+            return r;
+        }
+    }
+    libc::syscall(libc::SYS_dup, fd) as libc::c_int
 }
